@@ -57,7 +57,15 @@ class TaintEngine(Engine):
 
     def __init__(self, *a, **k):
         Engine.__init__(self, *a, **k)
-        self.extra = {'tainted_branches': []}
+        self.extra = {'tainted_branches': [], 'tainted_loop_branches': []}
+        self._loop_depth = 0
+
+    def run_loop(self, *a, **k):
+        self._loop_depth += 1
+        try:
+            return Engine.run_loop(self, *a, **k)
+        finally:
+            self._loop_depth -= 1
 
     def branch(self, st, v):
         t, f = Engine.branch(self, st, v)
@@ -66,6 +74,10 @@ class TaintEngine(Engine):
             bad = stale_atoms(term)
             if bad and len(self.extra['tainted_branches']) < 50:
                 self.extra['tainted_branches'].append((self.fn, short(term), [short(a) for a in bad[:3]]))
+            if bad and self._loop_depth > 0:
+                rec = (self.fn, short(term), [short(a) for a in bad[:3]])
+                if rec not in self.extra['tainted_loop_branches'] and len(self.extra['tainted_loop_branches']) < 50:
+                    self.extra['tainted_loop_branches'].append(rec)
         return t, f
 
 
@@ -220,6 +232,12 @@ def recovery(rep, prog, P):
         label = '%s/%s' % (kcls, ','.join(sorted(set(field_of[b] for b in stale))) or '-')
         explored.append(label)
         for region, outs in res2.items():
+            # a test of pre-Reset state inside a loop decides how often the body runs (how many frames go out, what is kept): the
+            # loop summary joins the constraint away, so it is caught where the branch is taken
+            for fn_, term_, atoms_ in ((stats2.get(region) or {}).get('extra') or {}).get('tainted_loop_branches', ()):
+                rep.fail(P + '.3', '%s|loop-control|%s' % (region, fn_),
+                         'after a Reset a loop of %s (cell %s) branches on pre-Reset state %s (%s, abstract state %s): how the frame is handled depends on what happened before the Reset'
+                         % (fn_, region, atoms_, term_[:80], label), function=fn_, file='lltdResponder/lltdBlock.c')
             for st, ret in outs:
                 nstates += 1
                 for e, ctx in effects(st, 'sleep'):
